@@ -100,8 +100,11 @@ pub(crate) fn load_config(file_path: Option<&Path>) -> Result<Config, io::Error>
         .or_else(|| find_configuration_file().map(Cow::Owned));
 
     if let Some(file_path) = file_path {
-        let config_string = fs::read_to_string(file_path)?;
-        toml::from_str(&config_string).map_err(|e| io::Error::new(io::ErrorKind::Other, e))
+        // name the file: it may have been found in an ancestor directory
+        let named = |e: &dyn std::fmt::Display| format!("{}: {e}", file_path.display());
+        let config_string = fs::read_to_string(&file_path)
+            .map_err(|e| io::Error::new(e.kind(), named(&e)))?;
+        toml::from_str(&config_string).map_err(|e| io::Error::new(io::ErrorKind::Other, named(&e)))
     } else {
         Ok(Config::default())
     }
